@@ -3,6 +3,7 @@ import Driver.Concurrency
 import Driver.Facet
 import Driver.Field
 import Driver.Keyword
+import Driver.Lexicon
 import Driver.Persist
 import Driver.QParser
 import Driver.Query
@@ -15,6 +16,7 @@ def sessions : List (String × Sess) := [
   ("facet", FacetS.sess),
   ("field", FieldS.sess),
   ("keyword", KeywordS.sess),
+  ("lexicon", LexiconS.sess),
   ("persist", PersistS.sess),
   ("qparser", QParserS.sess),
   ("query", QueryS.sess),
